@@ -17,9 +17,10 @@ ASSUMPTIONS = [
     "'constructed so far' is evaluated when a query is evaluated, for every evaluation of it (declaration time is not a cut-off)",
     "CLEAR is the test-suite fixture idiom (clear every per-class registry, then the registry map)",
     "hierarchy: A (dataclass) > B (decorated dataclass) > E (decorated); A > C (undecorated, hand-written __init__); "
-    "D unrelated (hand-written __init__)",
+    "D unrelated (hand-written __init__); G(B, C) decorated, the bottom of a diamond",
 ]
-BOUNDS = {"quick": dict(history_length=4, declared_variables=2), "thorough": dict(history_length=5, declared_variables=2)}
+BOUNDS = {"quick": dict(history_length=4, declared_variables=2, ops=20, classes="A>B>E, A>C, D, diamond G(B,C)"),
+          "thorough": dict(history_length=5, declared_variables=2, ops=20)}
 LIMITS = {"quick": dict(max_paths=400000, max_wall=500), "thorough": dict(max_paths=5000000, max_wall=3300)}
 FIDELITY = {"quick": "first", "thorough": "first"}
 WALL_BUDGET = {"quick": 560, "thorough": 3500}
@@ -64,13 +65,23 @@ class E(B):
 
 
 @symbol
+class G(B, C):
+    """bottom of a diamond: A > B > G and A > C > G (multiple inheritance, hand-written __init__)"""
+
+    def __init__(self, v=3, w=4):
+        self.v = v
+        self.w = w
+        INIT_CALLS["n"] += 1
+
+
+@symbol
 @dataclass(eq=False)
 class Src:
     k: Any = 0
 
 
-CLASSES = {"A": A, "B": B, "C": C, "D": D, "E": E}
-OPS = ["C_A_kw", "C_A_pos", "C_A_def", "C_B", "C_C", "C_D", "C_E", "SYM_A", "SYM_B", "SYM_D", "SYM_EXC", "INFER_A", "INFER_B", "CLEAR",
+CLASSES = {"A": A, "B": B, "C": C, "D": D, "E": E, "G": G}
+OPS = ["C_A_kw", "C_A_pos", "C_A_def", "C_B", "C_C", "C_D", "C_E", "C_G", "SYM_A", "SYM_B", "SYM_D", "SYM_EXC", "INFER_A", "INFER_B", "CLEAR",
        "DECL_A", "DECL_B", "DECL_D", "QUERY0", "QUERY1"]
 
 
@@ -118,6 +129,8 @@ class C14(Case):
                     live.append(D(w=nxt()))
                 elif op == "C_E":
                     live.append(E(v=nxt()))
+                elif op == "C_G":
+                    live.append(G(nxt()))
                 if op.startswith("C_") and not isinstance(live[-1], CLASSES[op[2]]):
                     bad.append([t, op, "construction outside every block did not build an instance", type(live[-1]).__name__])
                     break
